@@ -217,7 +217,7 @@ def gen_plan(seed: int) -> Dict:
         else:
             tape.append(ta.randrange(1, 8))
         tape.extend(ta.randrange(1 << 16) for _k in range(3))
-    return {"prop": PROP, "seed": seed, "world": {"n": n, "dom": dom}, "pool": pool, "ops": ops, "tape": tape}
+    return {"prop": PROP, "seed": seed, "world": {"n": n, "dom": dom, "lossy_str": env.stream(seed, "printing").random() < 0.35}, "pool": pool, "ops": ops, "tape": tape}
 
 
 # ------------------------------------------------------------------------------ execution
@@ -270,7 +270,7 @@ class _Tracer:
 def execute(plan: Dict, trace: bool = False) -> Dict:
     IoContract, Var, IncompatibleArgsError, stub = _imports()
     world = _world(plan["world"]["n"], plan["world"]["dom"])
-    sim = stub.Sim(world, stub.Tape(plan["tape"]))
+    sim = stub.Sim(world, stub.Tape(plan["tape"]), bool(plan["world"].get("lossy_str")))
     stub.set_sim(sim)
     tracer = None
     if trace:
